@@ -1741,27 +1741,13 @@ Section next_ext2.
     assert (Hnx : disk_next (st_disk st5) s a internal = next + n /\
                   (forall s' a' i', (s', a', i') <> (s, a, internal) ->
                      disk_next (st_disk st5) s' a' i' = disk_next (st_disk st1) s' a' i')).
-    { rewrite D5. destruct X3 as (X3a & X3b). unfold next_key in *. rewrite Hbi in *. rewrite D2 in *. split.
+    { rewrite D5. destruct X3 as (X3a & X3b). unfold next_key in X3a, X3b. rewrite Hbi in X3a, X3b.
+      rewrite D2 in X3a, X3b. split.
       - unfold disk_next at 1. rewrite X3b. rewrite Hc in S2.
-        destruct (rev_objs_last objs next c S2) as (p & l & -> & Hp). rewrite Hp. lia.
+        destruct (rev_objs_last objs next c S2) as (p & l & Hr & Hp). rewrite Hr, Hp.
+        assert (Hn : n = N.of_nat (S c)) by (rewrite <- Hc, N2Nat.id; reflexivity).
+        rewrite Hn. clear. lia.
       - intros s' a' i' Hne. unfold disk_next. rewrite X3a by exact Hne. reflexivity. }
     destruct Hnx as (Hnx1 & Hnx2).
-    splits; try assumption.
-    - (* NextOk *)
-      intros s' a' ai0 H0. rewrite A5, A3, C2 in H0. rewrite aget_aset in H0.
-      destruct (sa_dec (s', a') (s, a)) as [E|E].
-      + inversion E. subst s' a'. inversion H0. subst ai0.
-        destruct (HN1 s a ai C1) as (Y1 & Y2).
-        destruct internal; unfold ai', set_next; simpl.
-        * rewrite Hnx1. split; [|reflexivity]. rewrite Y1. symmetry. apply Hnx2. intros Hx. inversion Hx.
-        * rewrite Hnx1. split; [reflexivity|]. rewrite Y2. symmetry. apply Hnx2. intros Hx. inversion Hx.
-      + destruct (HN1 s' a' ai0 H0) as (Y1 & Y2). rewrite Y1, Y2.
-        split; symmetry; apply Hnx2; intros Hx; inversion Hx; subst; contradiction.
-    - rewrite Hnx1, Hnext. reflexivity.
-    - intros s' a' i' Hne. rewrite Hnx2 by exact Hne. rewrite D1. reflexivity.
-    - rewrite <- Hnext, <- S2. apply Forall_Forall2_fst_snd.
-      assert (E25 : ext st2 st5) by (eapply ext_trans; [exact E3|]; unfold st5; eapply ext_trans;
-        [apply (cache_objs_post seed lk s sch a branch _ objs st3 I3)|apply cache_acct_post]; fail).
-      idtac.
   Abort.
 End next_ext2.
